@@ -866,6 +866,51 @@ def run(chk):
     run_driver(chk)
     run_ptr(chk)
     run_packer(chk)
+    # ---- C11.fixup: the code run after unpacking does not reset what was just transferred
+    r_fx = chk.rule("C11.fixup", "UnitSystem::serializeOp transfers its members and then, on the unpacking side, calls init() to rebuild the conversion tables: no function of that fix-up chain (init and the init<SYSTEM> functions it calls) assigns a numeric or boolean literal to a member that serializeOp transfers - such a reset silently replaces the transferred value (the use counter that guards against switching the unit family would read 0 on every unpacked object)", floor=5)
+    ux = chk.facts(["opm/input/eclipse/Units/UnitSystem.cpp"], files_re=r"^/repo/opm/input/eclipse/Units/UnitSystem\.hpp$")
+    sop = [f for f in ux.fns if f["q"] == "Opm::UnitSystem::serializeOp" and f.get("body")]
+    if len(sop) != 1:
+        raise core.AnalysisBroken("UnitSystem::serializeOp: %d definitions" % len(sop))
+    sent = []
+    after = []
+    for st in stmt_list(sop[0]["body"]):
+        t_ = show(st)
+        m_ = re.fullmatch(r"serializer\((?:this\.)?(\w+)\)", t_)
+        if m_:
+            sent.append(m_.group(1))
+        else:
+            after += [meth(x)[0] or (x.get("fn") or "").split("::")[-1] for x in walk(st) if x.get("k") in ("Call", "MCall") and (meth(x)[0] or (x.get("fn") or "").split("::")[-1]) not in ("isSerializing", None, "")]
+    byname = {}
+    for f in ux.fns:
+        if f.get("body") and (f.get("cls") or "") == "Opm::UnitSystem":
+            byname.setdefault(f["n"], []).append(f)
+    chain, todo = set(), [a_ for a_ in after if a_ in byname]
+    while todo:
+        nm = todo.pop()
+        if nm in chain:
+            continue
+        chain.add(nm)
+        for f in byname.get(nm, []):
+            for x in walk(f["body"]):
+                cn = meth(x)[0] if x.get("k") in ("Call", "MCall") else None
+                if cn in byname and cn not in chain and cn.startswith("init"):
+                    todo.append(cn)
+    if not sent or not chain:
+        raise core.AnalysisBroken("UnitSystem::serializeOp: transferred members %s, fix-up chain %s" % (sent, sorted(chain)))
+    for nm in sorted(chain):
+        for f in byname[nm]:
+            resets = []
+            for x in walk(f["body"]):
+                if x.get("k") == "Bin" and x.get("asg") and x.get("op") == "=":
+                    l_ = strip(x["c"][0])
+                    r_ = strip(x["c"][1])
+                    if l_.get("k") == "Mem" and l_.get("n") in sent and r_.get("k") in ("Int", "Flt", "Bool"):
+                        resets.append((x.get("l"), l_["n"], show(r_)))
+            chk.instance(r_fx, nm, sample=dict(function=f["q"], literal_resets=len(resets)))
+            for ln, mem, val in resets:
+                chk.violation(r_fx, nm, "UnitSystem::%s, run after every unpack, sets the transferred member %s to the literal %s: the value that came over the wire is lost" % (nm, mem, val), f["file"], ln)
+
     chk.assumptions += [
         "clang 14 AST of the library units with the build's flags (HAVE_QUAD instantiations excluded)",
         "tables/c11_exempt.json: members that are process-local, derived, or documented as distributed separately",
